@@ -281,12 +281,9 @@ def stage_glob_mem(ctx, rng, gvprune, gmodel, known_ids):
             continue
         if c["pattern"].startswith("/"):
             st["abs_patterns"] += 1
-            if not e["root"].startswith("/"):
-                if "glob-absolute-path" in known_ids:
-                    known.setdefault("glob-absolute-path", {"n": 0, "example": "glob_segments('%s').root_dir = '%s'" % (c["pattern"], e["root"])})["n"] += 1
-                elif not any(v["what"].startswith("an absolute glob pattern") for v in viol):
-                    viol.append({"what": "an absolute glob pattern loses its leading '/': it is resolved against the working directory",
-                                 "replay": {"gv_prune_case": c, "root_dir": e["root"]}, "no_input": False})
+            if not e["root"].startswith("/") and not any(v["what"].startswith("an absolute glob pattern") for v in viol):
+                viol.append({"what": "an absolute glob pattern loses its leading '/': it is resolved against the working directory (repaired by ce090d193)",
+                             "replay": {"gv_prune_case": c, "root_dir": e["root"]}, "no_input": False})
         same_order = e["real"] == e["impl"] if c["chunk"] == 0 else sorted(e["real"]) == sorted(e["impl"])
         if not same_order:
             mism.append({"case": c, "real": e["real"], "model": e["impl"]})
@@ -363,21 +360,21 @@ def stage_glob_disk(ctx, rng, gverif, gvprune, gmodel, known_ids):
     real_mem = common.run_harness(gvprune, [], mem_cases, timeout=300)
     ev = glob_eval(mem_cases, real_mem, gmodel)
     send = []
-    for i, (t, root, segs, rows_of) in enumerate(plan):
-        pat = rel(os.path.join(root, "r")) + "/" + "/".join(segs)
+    for i, (t, root, segs, rows_of) in enumerate(list(plan)):
+        use_abs = bool(i % 2)
+        pat = (os.path.join(root, "r") if use_abs else rel(os.path.join(root, "r"))) + "/" + "/".join(segs)
+        plan[i] = (t, root, segs, rows_of, use_abs)
         send.append({"id": "g%d" % i, "mode": "threaded", "threads": 2, "timeout_s": 60,
                      "stmts": ["set partitions to %d" % rng.choice([1, 3]), "select * from glob('%s')" % pat,
                                "select a, b, _filename from read_csv('%s')" % pat]})
-    # an absolute pattern
-    abs_pat = os.path.join(base, "t0", "r") + "/*.csv"
-    send.append({"id": "gabs", "mode": "threaded", "threads": 2, "timeout_s": 60, "stmts": ["select * from glob('%s')" % abs_pat]})
     res = common.run_harness(gverif, "sql", send, timeout=900)
-    viol, known, st = [], {}, {"patterns": len(plan), "glob_equal_spec": 0, "read_csv_equal_spec": 0, "skipped": 0}
-    for i, ((t, root, segs, rows_of), e, r) in enumerate(zip(plan, ev, res)):
+    viol, known, st = [], {}, {"patterns": len(plan), "glob_equal_spec": 0, "read_csv_equal_spec": 0, "skipped": 0, "absolute_patterns": 0}
+    for i, ((t, root, segs, rows_of, use_abs), e, r) in enumerate(zip(plan, ev, res)):
         if e["status"] != "ok":
             st["skipped"] += 1
             continue
-        pre = rel(root) + "/"
+        st["absolute_patterns"] += use_abs
+        pre = (root if use_abs else rel(root)) + "/"
         want_spec = sorted(pre + p for p in e["spec"])
         want_impl = sorted(pre + p for p in e["impl"])
         rs = r.get("results") or []
@@ -414,15 +411,6 @@ def stage_glob_disk(ctx, rng, gverif, gvprune, gmodel, known_ids):
             viol.append({"what": "glob() / read_csv(pattern) differs from the files matching the pattern",
                          "replay": dict(replay, got_files=got, got_rows=None if got_rows is None else len(got_rows),
                                         failure=[sql_fail(g), sql_fail(rc)]), "no_input": False})
-    ra = (res[-1].get("results") or [None])[0]
-    want_abs = sorted(os.path.join(base, "t0", "r", "a.csv") for _ in [0])
-    if ra is not None and sql_fail(ra) is None and sorted(x[0][1:] for x in ra["rows"]) == want_abs:
-        pass
-    elif os.getcwd() != "/" and ra is not None and "Failed to read directory" in (ra.get("err") or "") and "glob-absolute-path" in known_ids:
-        known.setdefault("glob-absolute-path", {"n": 0, "example": "select * from glob('%s') -> %s" % (abs_pat, ra.get("err"))})["n"] += 1
-    else:
-        viol.append({"what": "glob() over an absolute pattern differs from the files matching it",
-                     "replay": {"sql": send[-1]["stmts"], "got": ra, "want": want_abs}, "no_input": False})
     return {"stats": st, "viol": viol, "known": known}
 
 
@@ -566,13 +554,13 @@ def lit(col, v, typed):
     return "'%s'" % v
 
 
-def gen_pq_case(rng, idx, directed=None):
+def gen_pq_file(rng, path, like=None, directed=None):
+    """one Parquet file; `like`: same column names / types / optionality as that file, everything else new"""
     if directed == "w29":
-        rgs, n = [(0, 3), (3, 6)], 6
+        rgs, n, sizes = [(0, 3), (3, 6)], 6, [3]
         cols = [{"name": "rid", "t": "i32", "optional": False, "vals": list(range(6)), "mode": "none", "chunks": {}, "dom": [], "pool": []},
                 {"name": "a", "t": "u32", "optional": False, "vals": [1, 3000000000, 7, 20, 25, 30], "mode": "old", "chunks": {},
                  "dom": [1, 3000000000, 7, 25], "pool": [1, 3000000000, 7, 25, 8]}]
-        sizes = [3]
     else:
         n = rng.choice([1, 2, 3, 6, 9, 14, 20])
         sizes = [rng.choice([1, 2, 3, 5, n])]
@@ -580,22 +568,56 @@ def gen_pq_case(rng, idx, directed=None):
         while pos < n:
             rgs.append((pos, min(n, pos + sizes[0])))
             pos += sizes[0]
-        cols = [{"name": "rid", "t": "i32", "optional": False, "vals": list(range(n)), "mode": rng.choice(["none", "new"]), "chunks": {},
-                 "dom": list(range(n)), "pool": list(range(n)) + [n + 3]}]
-        for ci in range(1 + rng.below(3)):
-            cols.append(gen_pq_col(rng, "c%d" % ci, rng.choice(list(ITYPES)), n, rgs))
-        if rng.chance(35):
-            cols.append({"name": "s", "t": "utf8", "optional": False, "vals": [rng.choice(["a", "b", "zz"]) for _ in range(n)], "dom": ["a", "b", "q"], "pool": ["a", "b", "q"]})
-        if rng.chance(25):
-            cols.append({"name": "x", "t": "f64", "optional": False, "vals": [rng.choice([0.5, -1.5, 2.0]) for _ in range(n)], "dom": [0.5, -1.5, 7.25], "pool": [0.5, 2.0, 7.25]})
-        if rng.chance(25):
-            cols.append({"name": "d", "t": "date", "optional": False, "vals": [rng.choice([0, 3, 20000]) for _ in range(n)], "dom": [0, 3, 5], "pool": [0, 3, 5]})
-    path = os.path.join(WDIR, "p%d.parquet" % idx)
+        base = 0 if like is None else 100
+        cols = [{"name": "rid", "t": "i32", "optional": False, "vals": list(range(base, base + n)), "mode": rng.choice(["none", "new"]), "chunks": {},
+                 "dom": list(range(base, base + n)), "pool": list(range(base, base + n)) + [n + 3]}]
+        if like is None:
+            for ci in range(1 + rng.below(3)):
+                cols.append(gen_pq_col(rng, "c%d" % ci, rng.choice(list(ITYPES)), n, rgs))
+            extra = [t for t, pct in (("utf8", 35), ("f64", 25), ("date", 25)) if rng.chance(pct)]
+        else:
+            for c in like["cols"][1:]:
+                if c["t"] in ITYPES:
+                    nc = gen_pq_col(rng, c["name"], c["t"], n, rgs)
+                    if not c["optional"]:
+                        nc["optional"] = False
+                        nc["vals"] = [rng.choice(nc["dom"]) if v is None else v for v in nc["vals"]]
+                    else:
+                        nc["optional"] = True
+                    if rng.chance(50):      # share values with the first file so that lookups hit both
+                        nc["vals"] = [v if v is None or rng.chance(50) else rng.choice(c["dom"]) for v in nc["vals"]]
+                    cols.append(nc)
+            extra = [c["t"] for c in like["cols"] if c["t"] not in ITYPES]
+        for t in extra:
+            if t == "utf8":
+                cols.append({"name": "s", "t": "utf8", "optional": False, "vals": [rng.choice(["a", "b", "zz"]) for _ in range(n)], "dom": ["a", "b", "q"], "pool": ["a", "b", "q"]})
+            elif t == "f64":
+                cols.append({"name": "x", "t": "f64", "optional": False, "vals": [rng.choice([0.5, -1.5, 2.0]) for _ in range(n)], "dom": [0.5, -1.5, 7.25], "pool": [0.5, 2.0, 7.25]})
+            else:
+                cols.append({"name": "d", "t": "date", "optional": False, "vals": [rng.choice([0, 3, 20000]) for _ in range(n)], "dom": [0, 3, 5], "pool": [0, 3, 5]})
     spec = '(file (out "%s") (rgs %s) %s)' % (path, " ".join(str(x) for x in sizes), " ".join(pq_col_clause(c, rgs) for c in cols))
-    # queries
+    return {"path": path, "f": rel(path), "spec": spec, "cols": cols, "rgs": rgs, "n": n}
+
+
+def gen_pq_case(rng, idx, directed=None):
+    f0 = gen_pq_file(rng, os.path.join(WDIR, "p%d.parquet" % idx), directed=directed)
+    files = [f0]
+    if not directed and rng.chance(30):
+        for k in range(1 + rng.below(2)):
+            files.append(gen_pq_file(rng, os.path.join(WDIR, "p%d_%d.parquet" % (idx, k + 1)), like=f0))
+        if rng.chance(20):
+            files.append(files[0])         # the same file twice
+    cols = f0["cols"]
+    ncols = len(cols)
+
+    def value_for(ci):
+        fl = rng.choice(files)
+        c = fl["cols"][ci]
+        v = rng.choice(c["dom"]) if rng.chance(70) else rng.choice(c["pool"])
+        return None if rng.chance(5) else v
     queries = []
     names = [c["name"] for c in cols]
-    nq = 3 if directed else 6
+    nq = 3 if directed else 7
     for qi in range(nq):
         sel = [rng.choice(names + ["_filename", "_rowid"]) for _ in range(1 + rng.below(4))]
         conj = []
@@ -604,57 +626,104 @@ def gen_pq_case(rng, idx, directed=None):
             conj = [("eq", 1, [1, 7, 3000000000][qi], True)]
         else:
             for _ in range(1 + rng.below(2)):
-                ci = rng.below(len(cols))
+                ci = rng.below(ncols)
                 c = cols[ci]
-                v = rng.choice(c["dom"]) if rng.chance(70) else rng.choice(c["pool"])
-                if rng.chance(5):
-                    v = None
-                conj.append(("eq", ci, v, rng.chance(80)))
+                isint = c["t"] in ITYPES
+                r = rng.below(100)
+                if r < 55 or not isint:
+                    conj.append(("eq", ci, value_for(ci), rng.chance(80) or not isint))
+                elif r < 65:
+                    conj.append(("eqrev", ci, value_for(ci), True))
+                elif r < 75:
+                    v = value_for(ci)
+                    conj.append(("ge", ci, 0 if v is None else v, True))
+                elif r < 83:
+                    conj.append(("in", ci, [x for x in (value_for(ci), value_for(ci)) if x is not None] or [0], True))
+                elif r < 90:
+                    conj.append(("isnull", ci, None, False))
+                elif r < 95:
+                    conj.append(("neq_not", ci, value_for(ci) or 0, True))
+                else:
+                    # the same column twice: two constants for one pruner
+                    v1, v2 = value_for(ci), value_for(ci)
+                    conj.append(("eq", ci, v1, True))
+                    conj.append(("eq", ci, v2, True))
             r = rng.below(100)
-            if r < 10:
+            if r < 8:
                 conj.append(("rid_ge", 0, 0, False))
-            elif r < 14:
-                conj.append(("rowid_eq", None, rng.below(n), False))
-        orform = (not directed) and rng.chance(10) and len(conj) == 2 and all(k[0] == "eq" for k in conj)
+            elif r < 18:
+                conj.append(("rowid_eq", None, rng.below(max(f["n"] for f in files)), False))
+            elif r < 24:
+                conj.append(("fname_eq", None, rng.choice(files)["f"], False))
+            elif r < 28 and ncols > 2 and cols[1]["t"] in ITYPES and cols[2]["t"] in ITYPES:
+                conj.append(("coleq", 1, 2, False))
+        orform = (not directed) and rng.chance(10) and len(conj) == 2
         queries.append({"sel": sel, "conj": conj, "or": orform})
-    return {"id": "p%d" % idx, "path": path, "spec": spec, "cols": cols, "rgs": rgs, "n": n, "queries": queries, "directed": directed}
+    return {"id": "p%d" % idx, "files": files, "queries": queries, "directed": directed}
 
 
 def where_sql(case, q):
+    cols = case["files"][0]["cols"]
     parts = []
     for kind, ci, v, typed in q["conj"]:
+        c = cols[ci] if isinstance(ci, int) else None
         if kind == "eq":
-            c = case["cols"][ci]
             parts.append("%s = %s" % (c["name"], lit(c, v, typed)))
+        elif kind == "eqrev":
+            parts.append("%s = %s" % (lit(c, v, typed), c["name"]))
+        elif kind == "ge":
+            parts.append("%s >= %s" % (c["name"], lit(c, v, typed)))
+        elif kind == "in":
+            parts.append("%s in (%s)" % (c["name"], ", ".join(lit(c, x, typed) for x in v)))
+        elif kind == "isnull":
+            parts.append("%s is null" % c["name"])
+        elif kind == "neq_not":
+            parts.append("not (%s <> %s)" % (c["name"], lit(c, v, typed)))
         elif kind == "rid_ge":
             parts.append("rid >= 0")
-        else:
+        elif kind == "rowid_eq":
             parts.append("_rowid = %d" % v)
-    return (" or " if q["or"] else " and ").join(parts)
+        elif kind == "fname_eq":
+            parts.append("_filename = '%s'" % v)
+        elif kind == "coleq":
+            parts.append("%s = %s" % (cols[ci]["name"], cols[v]["name"]))
+    return (" or " if q["or"] else " and ").join("(%s)" % x for x in parts)
 
 
-def row_passes(case, q, i):
+def row_passes(fl, q, i):
     res = []
     for kind, ci, v, typed in q["conj"]:
-        if kind == "eq":
-            cell = case["cols"][ci]["vals"][i]
+        cell = fl["cols"][ci]["vals"][i] if isinstance(ci, int) else None
+        if kind in ("eq", "eqrev", "neq_not"):
             res.append(cell is not None and v is not None and cell == v)
+        elif kind == "ge":
+            res.append(cell is not None and cell >= v)
+        elif kind == "in":
+            res.append(cell is not None and cell in v)
+        elif kind == "isnull":
+            res.append(cell is None)
         elif kind == "rid_ge":
             res.append(True)
-        else:
+        elif kind == "rowid_eq":
             res.append(i == v)
+        elif kind == "fname_eq":
+            res.append(fl["f"] == v)
+        elif kind == "coleq":
+            a, b = fl["cols"][ci], fl["cols"][v]
+            x, y = a["vals"][i], b["vals"][i]
+            res.append(x is not None and y is not None and x == y)
     return any(res) if q["or"] else all(res)
 
 
-def proj_row(case, q, i, fname):
+def proj_row(fl, q, i):
     out = []
     for s in q["sel"]:
         if s == "_filename":
-            out.append("S" + fname)
+            out.append("S" + fl["f"])
         elif s == "_rowid":
             out.append("I%d" % i)
         else:
-            c = [c for c in case["cols"] if c["name"] == s][0]
+            c = [c for c in fl["cols"] if c["name"] == s][0]
             out.append(cell_of(c, c["vals"][i]))
     return out
 
@@ -671,6 +740,7 @@ def parse_pushed(explain_rows):
             body = body[:body.find("]")]
             out = []
             for part in [p.strip() for p in body.split(",") if p.strip()]:
+                part = part.strip("()")
                 if " = " not in part:
                     out.append((None, part))
                     continue
@@ -685,125 +755,131 @@ def parse_pushed(explain_rows):
 
 
 def stage_pq(ctx, rng, gverif, gmodel, known_ids):
-    nfiles = 300 if ctx["tier"] == "quick" else 2000
+    nfiles = 200 if ctx["tier"] == "quick" else 2000
     os.makedirs(WDIR, exist_ok=True)
     cases = [gen_pq_case(rng, 0, "w29")] + [gen_pq_case(rng, i) for i in range(1, nfiles)]
     gpq = common.build_ocaml("pq")
-    metas = common.run_model(gpq, "write", [c["spec"] for c in cases], timeout=600)
+    specs, seen = [], set()
+    for c in cases:
+        for fl in c["files"]:
+            if fl["path"] not in seen:
+                seen.add(fl["path"])
+                specs.append(fl["spec"])
+    metas = common.run_model(gpq, "write", specs, timeout=900)
+    wfail = [m for m in metas if '"error"' in m]
     send = []
     for c in cases:
-        f = rel(c["path"])
-        c["f"] = f
-        stmts = ["create temp table m as select *, _filename, _rowid from read_parquet('%s')" % f]
+        fs = [fl["f"] for fl in c["files"]]
+        arg = "'%s'" % fs[0] if len(fs) == 1 else "[" + ", ".join("'%s'" % f for f in fs) + "]"
+        c["arg"] = arg
+        stmts = ["create temp table m as select *, _filename, _rowid from read_parquet(%s)" % arg]
         c["slots"] = []
         for q in c["queries"]:
             w = where_sql(c, q)
             sel = ", ".join(q["sel"])
             s0 = len(stmts)
-            stmts.append("explain select %s from read_parquet('%s') where %s" % (sel, f, w))
+            stmts.append("explain select %s from read_parquet(%s) where %s" % (sel, arg, w))
             for p in (1, 4):
-                stmts += ["set partitions to %d" % p, "select %s from read_parquet('%s') where %s" % (sel, f, w),
+                stmts += ["set partitions to %d" % p, "select %s from read_parquet(%s) where %s" % (sel, arg, w),
                           "select %s from m where %s" % (sel, w)]
             c["slots"].append(s0)
         send.append({"id": c["id"], "mode": "threaded", "threads": 4, "stmts": stmts, "timeout_s": 90})
     real = common.run_harness(gverif, "sql", send, timeout=1800)
     viol, known = [], {}
-    st = {"files": len(cases), "queries": 0, "equal_spec": 0, "pushed_queries": 0, "model_predicts_drop": 0, "faithful_known": 0}
+    if wfail:
+        viol.append({"what": "spec writer failed", "replay": {"errors": wfail[:3]}, "no_input": False})
+    st = {"cases": len(cases), "files": len(specs), "multi_file_cases": sum(len(c["files"]) > 1 for c in cases), "queries": 0, "equal_spec": 0,
+          "pushed_queries": 0, "model_predicts_drop": 0, "multi_file_queries_with_drop": 0}
     distinct = set()
-    model_lines, model_keys = [], []
-    pending = []
-    for c, m, r, sd in zip(cases, metas, real, send):
-        if '"error"' in m:
-            viol.append({"what": "spec writer failed", "replay": {"spec": c["spec"], "error": m}, "no_input": False})
-            continue
+    model_lines, pending = [], []
+    for c, r, sd in zip(cases, real, send):
         rs = r.get("results") or []
+        wspecs = [fl["spec"] for fl in c["files"]]
         if not rs or sql_fail(rs[0]):
-            viol.append({"what": "reading / materialising a valid Parquet file fails",
-                         "replay": {"write_spec": c["spec"], "sql": sd["stmts"][:1], "failure": sql_fail(rs[0]) if rs else json.dumps(r)[:300]}, "no_input": False})
+            viol.append({"what": "reading / materialising valid Parquet file(s) fails",
+                         "replay": {"write_spec": wspecs, "sql": sd["stmts"][:1], "failure": sql_fail(rs[0]) if rs else json.dumps(r)[:300]}, "no_input": False})
             continue
+        cols0 = c["files"][0]["cols"]
         for q, s0 in zip(c["queries"], c["slots"]):
             ex = rs[s0] if s0 < len(rs) else None
             pushed = parse_pushed(ex.get("rows")) if ex and ex.get("ok") else []
-            has_meta_eq = any(k[0] == "rowid_eq" for k in q["conj"]) and not q["or"]
-            want = sorted(json.dumps(proj_row(c, q, i, c["f"])) for i in range(c["n"]) if row_passes(c, q, i))
+            want = sorted(json.dumps(proj_row(fl, q, i)) for fl in c["files"] for i in range(fl["n"]) if row_passes(fl, q, i))
             # faithful model: which row groups does rg_should_prune drop for the pushed filters
-            refd = sorted(set([i for i, col in enumerate(c["cols"]) if col["name"] in q["sel"]] +
-                              [ci for k, ci, v, t in q["conj"] if k == "eq"] + ([0] if any(k[0] == "rid_ge" for k in q["conj"]) else [])))
-            fl = []
+            refd = set(i for i, col in enumerate(cols0) if col["name"] in q["sel"])
+            for k, ci, v, t in q["conj"]:
+                if isinstance(ci, int):
+                    refd.add(ci)
+                if k == "coleq":
+                    refd.add(v)
+            refd = sorted(refd)
+            fl_tokens = []
             for colname, const in pushed:
-                ci = [i for i, col in enumerate(c["cols"]) if col["name"] == colname]
-                if not ci or c["cols"][ci[0]]["t"] not in ITYPES or not isinstance(const, int):
+                ci = [i for i, col in enumerate(cols0) if col["name"] == colname]
+                if not ci or cols0[ci[0]]["t"] not in ITYPES or not isinstance(const, int):
                     if ci and const is None:
-                        fl.append("(f %d N)" % ci[0])
+                        fl_tokens.append("(f %d N)" % ci[0])
                     continue
-                fl.append("(f %d (%s %d))" % (ci[0], c["cols"][ci[0]]["t"], const))
-            per_rg = []
-            for gi in range(len(c["rgs"])):
-                colcl = []
-                for ci in refd:
-                    col = c["cols"][ci]
-                    if col["t"] not in ITYPES:
-                        colcl.append("(col %d nop none)" % ci)
-                        continue
-                    tv = col_chunk_stats(col, c["rgs"])[gi][1]
-                    colcl.append("(col %d %s %s)" % (ci, col["t"], "none" if tv is None else "(t %s %s %s %s %s)" % tuple(oz(x) for x in tv)))
-                model_lines.append("(rg (prj %s) %s (fs %s))" % (" ".join(str(x) for x in refd), " ".join(colcl), " ".join(fl)))
-                per_rg.append(len(model_lines) - 1)
-            pending.append((c, q, s0, rs, sd, pushed, has_meta_eq, want, per_rg))
+                fl_tokens.append("(f %d (%s %d))" % (ci[0], cols0[ci[0]]["t"], const))
+            per_file = []
+            for fl in c["files"]:
+                stats_of = {ci: col_chunk_stats(fl["cols"][ci], fl["rgs"]) for ci in refd if fl["cols"][ci]["t"] in ITYPES}
+                per_rg = []
+                for gi in range(len(fl["rgs"])):
+                    colcl = []
+                    for ci in refd:
+                        col = fl["cols"][ci]
+                        if col["t"] not in ITYPES:
+                            colcl.append("(col %d nop none)" % ci)
+                            continue
+                        tv = stats_of[ci][gi][1]
+                        colcl.append("(col %d %s %s)" % (ci, col["t"], "none" if tv is None else "(t %s %s %s %s %s)" % tuple(oz(x) for x in tv)))
+                    model_lines.append("(rg (prj %s) %s (fs %s))" % (" ".join(str(x) for x in refd), " ".join(colcl), " ".join(fl_tokens)))
+                    per_rg.append(len(model_lines) - 1)
+                per_file.append(per_rg)
+            pending.append((c, q, s0, rs, sd, pushed, want, per_file))
     outs = common.run_model(gmodel, "run", model_lines, timeout=900) if model_lines else []
-    for (c, q, s0, rs, sd, pushed, has_meta_eq, want, per_rg) in pending:
-        drops = [outs[k] for k in per_rg]
-        faithful = sorted(json.dumps(proj_row(c, q, i, c["f"])) for gi, (a, b) in enumerate(c["rgs"]) if drops[gi] != "true"
-                          for i in range(a, b) if row_passes(c, q, i))
+    for (c, q, s0, rs, sd, pushed, want, per_file) in pending:
+        drops = [[outs[k] for k in per_rg] for per_rg in per_file]
+        faithful = sorted(json.dumps(proj_row(fl, q, i)) for fl, dr in zip(c["files"], drops) for gi, (a, b) in enumerate(fl["rgs"])
+                          if dr[gi] != "true" for i in range(a, b) if row_passes(fl, q, i))
+        anydrop = any(d == "true" for dr in drops for d in dr)
         st["pushed_queries"] += bool(pushed)
-        st["model_predicts_drop"] += any(d == "true" for d in drops)
+        st["model_predicts_drop"] += anydrop
+        st["multi_file_queries_with_drop"] += anydrop and len(c["files"]) > 1
+        if faithful != want:
+            # the model itself says a pruned row group holds a passing row: outside every proved case
+            viol.append({"what": "the faithful pruner model drops a row group that holds a row passing the predicate (valid statistics)",
+                         "replay": {"case": c["id"], "write_spec": [fl["spec"] for fl in c["files"]], "where": where_sql(c, q),
+                                    "pushed_filters_per_explain": pushed, "row_groups_dropped_by_model": drops}, "no_input": False})
         for pi, p in enumerate((1, 4)):
             k = s0 + 1 + 3 * pi
             rq = rs[k + 1] if k + 1 < len(rs) else None
             rm = rs[k + 2] if k + 2 < len(rs) else None
             st["queries"] += 1
             sqls = [sd["stmts"][k], sd["stmts"][k + 1]]
-            replay = {"case": c["id"], "write_spec": c["spec"], "sql": sqls, "materialised_sql": [sd["stmts"][0], sd["stmts"][k + 2]],
-                      "pushed_filters_per_explain": pushed, "how": "echo '<write_spec>' | .work/ocaml/pq/pq write ; run the sql with gverif sql from " + os.getcwd()}
+            replay = {"case": c["id"], "write_spec": [fl["spec"] for fl in c["files"]], "sql": sqls, "materialised_sql": [sd["stmts"][0], sd["stmts"][k + 2]],
+                      "pushed_filters_per_explain": pushed,
+                      "how": "echo '<write_spec>' | .work/ocaml/pq/pq write (one line per file); run the sql with gverif sql from " + os.getcwd()}
             fq, fm = sql_fail(rq), sql_fail(rm)
             if fm or sorted(json.dumps(x) for x in rm["rows"]) != want:
-                viol.append({"what": "query over the materialised copy differs from the table the file encodes",
+                viol.append({"what": "query over the materialised copy differs from the table the file(s) encode",
                              "replay": dict(replay, failure=fm, want=want[:10], got=(rm or {}).get("rows", [])[:10]), "no_input": False})
                 continue
             if fq is None:
                 got = sorted(json.dumps(x) for x in rq["rows"])
                 if got == want:
                     st["equal_spec"] += 1
-                    distinct.add((tuple(sorted(set((col["t"], col.get("mode")) for col in c["cols"]))), len(c["rgs"]), tuple(q["sel"]),
-                                  tuple((kk[0], kk[3]) for kk in q["conj"]), q["or"], p, len(want), tuple(drops)))
-                    continue
-                # a deviation: inside the known class?
-                cls = False
-                for colname, const in pushed:
-                    col = [x for x in c["cols"] if x["name"] == colname]
-                    if col and col[0]["t"] in ITYPES and not ITYPES[col[0]["t"]][1] and col[0].get("mode") == "old":
-                        cls = True
-                if cls and got == faithful and "deprecated-stats-unsigned" in known_ids:
-                    st["faithful_known"] += 1
-                    kk = known.setdefault("deprecated-stats-unsigned", {"n": 0, "example": None})
-                    kk["n"] += 1
-                    if c["directed"] or kk["example"] is None:
-                        kk["example"] = "%s -> %d row(s), the materialised copy returns %d (file %s: UINT column, deprecated signed-order min/max)" % (
-                            sqls[1], len(got), len(want), c["f"])
+                    distinct.add((tuple(sorted(set((col["t"], col.get("mode")) for fl in c["files"] for col in fl["cols"]))), len(c["files"]),
+                                  tuple(q["sel"]), tuple((kk[0], kk[3]) for kk in q["conj"]), q["or"], p, len(want) > 0, anydrop))
                     continue
                 viol.append({"what": "pushed-down scan returns different rows than filtering the materialised table",
                              "replay": dict(replay, want=want[:10], got=rq["rows"][:10], faithful_model=faithful[:10],
                                             matches_faithful_model=got == faithful, row_groups_dropped_by_model=drops), "no_input": False})
                 continue
-            if has_meta_eq and "not referencing a valid table ref" in fq and "meta-eq-pushdown-plan-error" in known_ids:
-                kk = known.setdefault("meta-eq-pushdown-plan-error", {"n": 0, "example": None})
-                kk["n"] += 1
-                kk["example"] = kk["example"] or "%s -> %s" % (sqls[1], fq)
-                continue
             viol.append({"what": "query with pushed-down scan fails, the same query over the materialised table succeeds",
                          "replay": dict(replay, failure=fq), "no_input": False})
     return {"stats": st, "viol": viol, "known": known, "distinct": len(distinct),
-            "sample": {"write_spec": cases[1]["spec"][:300] if len(cases) > 1 else None, "sql": send[1]["stmts"][1:4] if len(send) > 1 else None}}
+            "sample": {"write_spec": cases[1]["files"][0]["spec"][:300] if len(cases) > 1 else None, "sql": send[1]["stmts"][1:4] if len(send) > 1 else None}}
 
 
 # ---------------------------------------------------------------- K4: multi-file scans
@@ -826,7 +902,7 @@ def stage_multi(ctx, rng, gverif, gmodel, known_ids):
             q, rng.choice([1, 2, 3]), " ".join(str(i * 100 + j) for j in range(n)), " ".join(str(v) for v in vals)))
     gpq = common.build_ocaml("pq")
     common.run_model(gpq, "write", specs, timeout=300)
-    nlists = 40 if ctx["tier"] == "quick" else 250
+    nlists = 25 if ctx["tier"] == "quick" else 250
     send, plan = [], []
     for li in range(nlists):
         k = 1 + rng.below(6)
@@ -884,10 +960,7 @@ def stage_multi(ctx, rng, gverif, gmodel, known_ids):
 
 
 KNOWN_TEXT = {
-    "deprecated-stats-unsigned": "row groups of an unsigned column are pruned with the deprecated (signed-order) min/max statistics after an unsigned reinterpretation: rows equal to the searched constant are lost (statistics.rs::from_thrift + PrimitiveRowGroupPruner::should_prune)",
     "glob-dstar-not-last": "`**` followed by another segment never stands for zero directories (and `**/**` lists a directory once per split): matching files are omitted or returned twice (glob.rs GlobHandle::poll_expand, source TODO)",
-    "glob-absolute-path": "an absolute local glob pattern loses its leading `/` (LocalFileSystem::glob_segments) and is resolved against the working directory",
-    "meta-eq-pushdown-plan-error": "a WHERE conjunct `<metadata column> = <constant>` (_rowid / _filename) over a file scan is pushed into the data scan and fails to plan (`Column expr not referencing a valid table ref`); with enable_optimizer = false the query works",
 }
 
 
@@ -910,11 +983,18 @@ def run(ctx):
     proof_broken = (not pr["ok"]) or bool(bad_assum) or bool(audit)
     discharged = 0 if proof_broken else len(obligations)
     gmodel = common.build_ocaml("prune")
+    tm = {"build+proofs": round(time.time() - t0, 1)}
+    t1 = time.time()
     k1 = stage_prune(ctx, rng, gvprune, gmodel)
+    tm["K1"] = round(time.time() - t1, 1); t1 = time.time()
     k3 = stage_glob_mem(ctx, rng, gvprune, gmodel, known_ids)
+    tm["K3"] = round(time.time() - t1, 1); t1 = time.time()
     k3b = stage_glob_disk(ctx, rng, gverif, gvprune, gmodel, known_ids)
+    tm["K3b"] = round(time.time() - t1, 1); t1 = time.time()
     k2 = stage_pq(ctx, rng, gverif, gmodel, known_ids)
+    tm["K2"] = round(time.time() - t1, 1); t1 = time.time()
     k4 = stage_multi(ctx, rng, gverif, gmodel, known_ids)
+    tm["K4"] = round(time.time() - t1, 1)
     prop_viol = k3["viol"] + k3b["viol"] + k2["viol"] + k4["viol"]
     out["violations"] += prop_viol
     merged = {}
@@ -952,11 +1032,11 @@ def run(ctx):
         "samples": [k1["sample"], k3["sample"], k2["sample"], k4["sample"]],
         "prune_cases": k1["cases"], "prune_cases_true": k1["pruned_true"], "prune_model_mismatches": len(k1["mismatches"]),
         "glob_mem": k3["stats"], "glob_model_mismatches": len(k3["mismatches"]), "glob_disk": k3b["stats"],
-        "parquet": k2["stats"], "multifile": k4["stats"], "exhaustive": False,
+        "stage_seconds": tm, "parquet": k2["stats"], "multifile": k4["stats"], "exhaustive": False,
     }
     out["assumptions"] = [
-        "generated Parquet statistics are valid for the format (min/max of the chunk in the order the format prescribes, or wider bounds flagged inexact); statistics that lie about the data are outside the property",
-        "files are given to the engine by paths relative to the working directory (absolute glob patterns are a known finding)",
+        "generated Parquet statistics are valid for the format (min/max of the chunk in the order the format prescribes, or wider bounds flagged inexact) and their bounds lie in the range of the logical type (the hypothesis C11_prune_sound_bounds_in_lrange needs for Int8/Int16/UInt8/UInt16; refuted without it); statistics that lie about the data are outside the property",
+        "files are given to the engine by relative and by absolute paths",
         "directory listing order of the local file system is unspecified: disk results are compared as bags; exact order only over the in-memory file system",
         "symbolic links, hidden files and non-UTF-8 names are not generated; files of one multi-file scan share one schema"]
     out["wall"] = time.time() - t0
